@@ -14,7 +14,7 @@ FUNCTIONS = [Cluster.is_idle, Buffer.is_empty, Scheduler.is_idle, Telescope.is_i
              Telescope.begin_observation, Telescope.finish_observation]
 META = {
     'bounds': {'C19.cluster': '3 machines, every pool vector (5^3) by prelude, then 0..4 timesteps of the real kernel',
-               'C19.buffer': 'capacities and free space unbounded ints', 'C19.scheduler': 'queue length 0..2',
+               'C19.buffer': 'capacities and free space unbounded ints; plus capacities 10^3..10^18 holding 0..2 units (case-split)', 'C19.scheduler': 'queue length 0..2',
                'C19.telescope': '2 observations each waiting/running/finished through begin/finish_observation, demands unbounded >= 0'},
     'outside_bounds': ['more than 3 machines / 2 observations at unit level (SIMH covers trajectories)'],
     'stubs': ['FakeCfg instead of JSON config', 'Simulation object built with __new__ around the four real actors (no file I/O)'],
@@ -104,6 +104,37 @@ def rest(hc: int, hf: int, cc: int, cf: int, qlen: int, st1: int, st2: int, d1: 
     return wit.verdict(t)
 
 
+def buf_big_tag(mag, uh, uc):
+    """buffers of very different magnitudes (10^3 .. 10^18 units) holding 0..2 units in either tier: 'empty' means
+    exactly full free capacity, at every scale"""
+    wit.begin()
+    mag, uh, uc = wit.concretize(mag, 0, 5), wit.concretize(uh, 0, 2), wit.concretize(uc, 0, 2)
+    if mag >= 3 and (uh or uc):
+        wit.reach('large-buffer-holding-little')
+    return wit.native(_buf_big, mag, uh, uc)
+
+
+def _buf_big(mag, uh, uc):
+    cap = 10 ** (3 * mag + 3)
+    env = simpy.Environment()
+    hot, cold = HotBuffer(cap, 1), ColdBuffer(2 * cap, 1)
+    hot.current_capacity, cold.current_capacity = cap - uh, 2 * cap - uc
+    buf = Buffer(env, None, None, FakeCfg(hot=hot, cold=cold))
+    if buf.is_empty() != (uh == 0 and uc == 0):
+        return 'C19/buffer-is-empty-wrong/large-capacity'
+    return None
+
+
+def buf_big(mag: int, uh: int, uc: int) -> bool:
+    """
+    pre: 0 <= mag <= 5 and 0 <= uh <= 2 and 0 <= uc <= 2
+    post: _
+    """
+    t = buf_big_tag(mag, uh, uc)
+    wit.note(t, mag=mag, uh=uh, uc=uc)
+    return wit.verdict(t)
+
+
 def warmup():
     cluster_q_tag(0, 1, 2, 1)
     rest_tag(5, 5, 5, 5, 0, 2, 2, 1, 1, 0, 0)
@@ -111,5 +142,6 @@ def warmup():
 
 def shards(tier, prop):
     T = 120 if tier == 'quick' else 600
-    return [{'fn': 'cluster_q', 'cond_timeout': T}, {'fn': 'rest', 'cond_timeout': T},
+    return [{'fn': 'cluster_q', 'cond_timeout': T}, {'fn': 'rest', 'cond_timeout': T}, {'fn': 'buf_big', 'cond_timeout': T},
+            {'fn': 'buf_big', 'cond_timeout': 30, 'twin': True},
             {'fn': 'cluster_q', 'cond_timeout': 30, 'twin': True}, {'fn': 'rest', 'cond_timeout': 30, 'twin': True}]
